@@ -67,7 +67,7 @@ def contract_unit(spec):
     out = {'unit': target, 'function': target, 'kind': c.kind, 'serves': c.serves,
            'undecided': res.undecided, 'paths': res.paths, 'gen_time': res.gen_time,
            'obligations': [], 'notes': c.notes, 'assumes': list(c.assumes)}
-    results = discharge(vc.obls, t_z3=spec.get('t_z3', 10), t_cvc5=spec.get('t_cvc5', 20),
+    results = discharge(vc.obls, t_z3=spec.get('t_z3', 40), t_cvc5=spec.get('t_cvc5', 40),
                         both=(tier == 'thorough'))
     searched = None
     for o, r in zip(vc.obls, results):
